@@ -2,6 +2,7 @@
 
 import enum
 import weakref
+from collections import UserList
 
 
 class Visitor(object):
@@ -148,7 +149,10 @@ class Visitor(object):
             ret = visitorFunc(self, obj, *args, **kwargs)
             if ret == False or (ret is None and self.defaultStop):
                 return
-        if hasattr(obj, "__dict__") and not isinstance(obj, enum.Enum):
+        if isinstance(obj, UserList):
+            # e.g. the LazyList of records read from a font opened with lazy=True
+            self.visitList(obj, *args, **kwargs)
+        elif hasattr(obj, "__dict__") and not isinstance(obj, enum.Enum):
             self.visitObject(obj, *args, **kwargs)
         elif isinstance(obj, list):
             self.visitList(obj, *args, **kwargs)
